@@ -5,7 +5,7 @@ from vlib import Case, hx
 
 HARNESS = "sim_driver"
 LEAN_MODULES = ["ViaProofs.C14"]
-LEMMA_MODULES = ['ViaProofs.ConnLemmas']
+LEMMA_MODULES = ['ViaProofs.ConnLemmas', 'ViaProofs.Trans.RQ', 'ViaProofs.Trans.RR']
 REQUIRED_THEOREMS = ['Via.C14_head', 'Via.C14_next_request']
 LEVEL = "proof"
 LEVEL_TEXT = ("PROOF (step level) that for a HEAD request both body-carrying overloads write exactly the head the GET twin gets, and that clear() resets the flag; on the real templates the stream is walked response by response: nothing may follow a HEAD head and its Content-Length is the GET twin's. Known finding C14-KF1 (late responses).")
@@ -52,6 +52,16 @@ def generate(tier, rng):
                 body = b"abc"
             elif method == b"HEAD" and rng.chance(1, 3):
                 hdrs.append((b"Content-Length", b"0"))
+            elif method == b"HEAD" and rng.chance(1, 2):
+                # a HEAD request that carries a body, the body arriving in a later read than the head
+                hdrs.append((b"Content-Length", b"3"))
+                head_only = gen_sim.req(method, target, headers=hdrs, body=b"")
+                for part in (gen_sim.split_reads(rng, head_only) if rng.chance(1, 2) else [head_only]):
+                    lines.append("read c0 " + hx(part))
+                for part in rng.choice([[b"abc"], [b"a", b"bc"], [b"ab", b"c"]]):
+                    lines.append("read c0 " + hx(part))
+                lines.append("wdone c0")
+                continue
             data = gen_sim.req(method, target, headers=hdrs, body=body)
             for part in gen_sim.split_reads(rng, data):
                 lines.append("read c0 " + hx(part))
